@@ -187,7 +187,12 @@ def observe(case):
 
 def model_request(case):
     if case.get("keyfail"):
-        return None     # key-function faults are outside the machine (C06's subject); decided against itertools.groupby
+        if case.get("kvals") is not None:
+            return None
+        # key invocation n is the key of item n (every fetched item has its key computed exactly once, in fetch order)
+        fails = set(case["keyfail"])
+        return {"m": "groupbyfault", "ops": [op for op in case["ops"]],
+                "script": [["k", i, 60 + i] if i in fails else ["i", i, k] for i, k in enumerate(case["keys"])]}
     if case.get("kvals") is not None and case["key"] == "none":
         return None     # raw odd values as items: no identities to compare; decided by the itertools oracle
     return {"m": "groupby", "items": [[i, k] for i, k in enumerate(case["keys"])],
@@ -222,6 +227,9 @@ def judge(case, obs, model):
         if "error" in model:
             issues.append(Issue("A", model))
         else:
+            if case.get("keyfail"):
+                unuser = lambda outs: [["exc", o[1][1]] if o[0] == "exc" and isinstance(o[1], list) and o[1][0] == "user" else o for o in outs]  # noqa: E731
+                obs = dict(obs, impl=unuser(obs["impl"]), std=unuser(obs["std"]))
             if model["impl"] != _valid_ops(case["ops"], obs["impl"]):
                 issues.append(Issue("A", {"impl": obs["impl"], "model": model["impl"]}))
             if model["spec"] != _valid_ops(case["ops"], obs["std"]):
